@@ -58,6 +58,7 @@ fn cmd_sched(args: &[String]) -> i32 {
     let summary = Arc::new(Mutex::new(BTreeMap::<String, u64>::new()));
     let violations = Arc::new(Mutex::new(Vec::<Value>::new()));
     let seen_traces = Arc::new(Mutex::new(HashSet::<u64>::new()));
+    let replays = Arc::new(Mutex::new(Vec::<Value>::new()));
     ctl::install_panic_hook();
     let mut handles = vec![];
     for j in 0..jobs {
@@ -67,6 +68,7 @@ fn cmd_sched(args: &[String]) -> i32 {
         let summary = summary.clone();
         let violations = violations.clone();
         let seen_traces = seen_traces.clone();
+        let replays = replays.clone();
         let out_dir = out_dir.clone();
         handles.push(std::thread::spawn(move || {
             let mut tf = std::io::BufWriter::new(std::fs::File::create(out_dir.join(format!("traces-{j}.ndjson"))).unwrap());
@@ -91,12 +93,16 @@ fn cmd_sched(args: &[String]) -> i32 {
                         "random" => sched::run_controlled(cfg, sc.n, sched::Policy::Random(&[], seed ^ hash_str(&format!("{i}-{count}")))),
                         "free" => sched::run_free(cfg, sc.n, Some(seed ^ hash_str(&format!("{i}-{count}"))), false),
                         "guided" => {
-                            let wishes: Vec<ctl::Decision> = sv["wishes"].as_array().map(|a| a.iter().map(|w| {
-                                match w[0].as_str().unwrap() {
-                                    "begin" => ctl::Decision::Begin(w[1].as_u64().unwrap() as usize),
-                                    "end" => ctl::Decision::End(w[1].as_u64().unwrap() as usize),
-                                    _ => ctl::Decision::Poll,
+                            // wishes: [action, kind, spec id, first]; ids are translated to the names txtpp prints
+                            let wishes: Vec<(String, String, String, bool)> = sv["wishes"].as_array().map(|a| a.iter().map(|w| {
+                                let act = w[0].as_str().unwrap().to_string();
+                                if act == "poll" {
+                                    return (act, String::new(), String::new(), true);
                                 }
+                                let kind = w[1].as_str().unwrap().to_string();
+                                let id = w[2].as_u64().unwrap() as usize;
+                                let name = if kind == "dir" { sc.dir_name(id).to_string() } else { sc.src(id) };
+                                (act, kind, name, w[3].as_bool().unwrap())
                             }).collect()).unwrap_or_default();
                             sched::run_controlled(cfg, sc.n, sched::Policy::Guided(&wishes))
                         }
@@ -108,6 +114,18 @@ fn cmd_sched(args: &[String]) -> i32 {
                     *local.entry("events".into()).or_insert(0) += out.events.len() as u64;
                     let problems = sched::judge(&sc, &base, &out.verdict);
                     let abandoned = matches!(out.verdict.as_str(), "hang" | "stuck" | "panic");
+                    if policy == "guided" {
+                        let marks = std::fs::read_to_string(dir.join("markers.log")).unwrap_or_default();
+                        let mut outs = serde_json::Map::new();
+                        let mut memo = BTreeMap::new();
+                        for f in 1..=sc.nf {
+                            let got = std::fs::read(base.join(sc.out(f))).ok();
+                            let fresh = !sc.reaches_cycle(f) && got.as_deref() == Some(sc.expected(f, &mut memo).as_bytes());
+                            outs.insert(f.to_string(), json!(fresh));
+                        }
+                        replays.lock().unwrap().push(json!({"index": i, "verdict": out.verdict, "events": out.events, "markers": marks, "fresh": outs,
+                                                           "choices": out.choices.len()}));
+                    }
                     if !problems.is_empty() {
                         let mut v = violations.lock().unwrap();
                         if v.len() < 200 {
@@ -171,7 +189,7 @@ fn cmd_sched(args: &[String]) -> i32 {
     }
     let s = summary.lock().unwrap();
     let v = violations.lock().unwrap();
-    let res = json!({"summary": *s, "violations": *v, "scenarios": scenarios.len()});
+    let res = json!({"summary": *s, "violations": *v, "scenarios": scenarios.len(), "replays": *replays.lock().unwrap()});
     std::fs::write(out_dir.join("result.json"), serde_json::to_string(&res).unwrap()).unwrap();
     println!("{}", serde_json::to_string(&json!({"summary": *s, "violations": v.len()})).unwrap());
     let _ = std::fs::remove_dir_all(&root);
